@@ -355,3 +355,16 @@ func BitEqSlice(a, b []float64) int {
 }
 
 func Finite(x float64) bool { return !math.IsNaN(x) && !math.IsInf(x, 0) }
+
+// SameSlice: first index where a and b differ (NaN equals NaN whatever the payload), -1 if equal.
+func SameSlice(a, b []float64) int {
+	if len(a) != len(b) {
+		return 0
+	}
+	for i := range a {
+		if !BitEq(a[i], b[i]) && !(math.IsNaN(a[i]) && math.IsNaN(b[i])) {
+			return i
+		}
+	}
+	return -1
+}
